@@ -498,11 +498,14 @@ fn gen_children(pool: &mut Pool, fr: &Freedoms, depth: usize, budget: &mut usize
         if fr.all_attrs {
             attr |= (pool.below(8) as u8) | if pool.chance(50) { 0x20 } else { 0 };
         }
-        let created = rand_ts(pool);
+        // creation time and access date are optional fields: writers that do not keep them store 0 ("not recorded",
+        // which decodes to month 0, day 0)
+        let not_recorded = Ts { y: 1980, mo: 0, d: 0, h: 0, mi: 0, s: 0, ms: 0 };
+        let created = if pool.chance(12) { not_recorded } else { rand_ts(pool) };
         let mut modified = rand_ts(pool);
         modified.s &= !1;
         modified.ms = 0;
-        let accessed = rand_ts(pool).date_only();
+        let accessed = if pool.chance(12) { not_recorded } else { rand_ts(pool).date_only() };
         let data: Vec<u8> = if is_dir {
             Vec::new()
         } else {
